@@ -55,6 +55,10 @@ func (p *Prog) aliasEscape(v ssa.Value, depth int, seen map[ssa.Value]bool) (str
 				return w, at
 			}
 		case *ssa.Extract:
+			// only byte-slice components of a tuple can carry the alias
+			if _, isSl := x.Type().Underlying().(*types.Slice); !isSl {
+				continue
+			}
 			if w, at := p.aliasEscape(x, depth, seen); w != "" {
 				return w, at
 			}
@@ -121,7 +125,15 @@ func (p *Prog) aliasEscape(v ssa.Value, depth int, seen map[ssa.Value]bool) (str
 			}
 			for i, a := range cc.Args {
 				if a == v && i < len(g.Params) {
-					if w, at := p.aliasEscape(g.Params[i], depth-1, seen); w != "" {
+					w, at := p.aliasEscape(g.Params[i], depth-1, seen)
+					if w == "is returned to the caller" {
+						// the helper hands (a part of) the alias back: keep following the call's result here
+						if w2, at2 := p.aliasEscape(x, depth, seen); w2 != "" {
+							return w2, at2
+						}
+						continue
+					}
+					if w != "" {
 						return "is passed to " + g.Name() + " where it " + w, at
 					}
 				}
